@@ -38,7 +38,7 @@ Proof.
   { intros d p. unfold replaced_or_kept in *. cbn [handshake_failed ixes sk].
     destruct R as [R|[R Ho]]; [left; exact R|right; split; [exact R|]].
     intro E. apply upd_open_inv in E; [tauto|intro; discriminate]. }
-  destruct (sk s v); [| |exact R];
+  destruct (sk s v); [| | |exact R];
     (destruct hs as [|[| |] hs];
      [apply IH; assumption | apply IH; [exact Hv'|apply rk_promote; assumption]
      | apply IH; assumption
